@@ -2,6 +2,7 @@ CONSTANTS
   MaxSize = 4
   StartSet <- StartsSmall
   MaxLen = 6
+  MaxLoops = 2
   TableFile = ""
   HonourStart = TRUE
 SPECIFICATION Spec
